@@ -638,11 +638,12 @@ class C18(Prop):
             shift = rng.choice([0.0, 0.0, 1.0, -2.5, round(rng.uniform(-5, 5), 2)])
             first, last = -size * 0.5 * scale + shift, size * 0.5 * scale + shift
             step = (last - first) / (size - 1)
-            w = rng.choice([1.0, 0.5, 2.0, 0.1, round(rng.uniform(0.05, 5.0), 3)])
+            # widths from narrow to so wide that the density is tiny everywhere (1 / (w sqrt(2 pi)) down to 1e-300)
+            w = rng.choice([1.0, 0.5, 2.0, 0.1, round(rng.uniform(0.05, 5.0), 3), 1e150, 1e250, 3e299])
             power = rng.choice([1, 2, 2, 3, 4]) if name == "super_gaussian" else 1
             lnc = min(0.0, -math.log(2 * w) if name == "laplace" else -math.log(w * math.sqrt(2 * math.pi)))
-            dist = lambda w_, lnc_: (w_ * (lnc_ - L) if name == "laplace" else
-                                     w_ * (2 * (lnc_ - L)) ** (1.0 / (2 * power)))      # distance at which the density is e**L
+            dist = lambda w_, lnc_: (w_ * max(0.0, lnc_ - L) if name == "laplace" else
+                                     w_ * (2 * max(0.0, lnc_ - L)) ** (1.0 / (2 * power)))   # distance at which the density is e**L
             how = rng.choice(["beyond-the-last-point", "before-the-first-point", "between-two-points"])
             if how == "between-two-points":
                 # a narrow peak half-way between two neighbouring samples: solve the width
@@ -660,8 +661,11 @@ class C18(Prop):
                 loc = sig(hi_ + d) if how == "beyond-the-last-point" else sig(lo_ - d)
             case.update(scale=scale, shift=shift, args=[w, loc] + ([power] if name == "super_gaussian" else []), how=how)
         elif name == "exponential":
-            lam = rng.choice([1.0, 0.5, 2.0, 5.0, 0.01, round(rng.uniform(0.05, 5.0), 3)])
-            x0 = (min(0.0, math.log(lam)) - L) / lam         # the smallest axis point
+            # rates down to subnormal ones: the density lambda * exp(-lambda x) is then tiny on the whole axis
+            lam = rng.choice([1.0, 0.5, 2.0, 5.0, 0.01, round(rng.uniform(0.05, 5.0), 3), 1e-250, 1e-305, 3e-310, 4e-320])
+            x0 = (min(0.0, math.log(lam)) - L) / lam if math.log(lam) > L + 5 else 1.0     # the smallest axis point
+            if not x0 < 1e300:
+                x0 = 1.0
             scale = rng.choice([1.0, 1.0, 0.5, 2.0, round(rng.uniform(0.1, 3.0), 3), -1.0, -0.5])
             shift = sig(x0) if scale > 0 else sig(x0 - size * scale)
             case.update(scale=scale, shift=shift, args=[lam], how="late-part-of-the-tail")
@@ -1685,6 +1689,9 @@ class C18(Prop):
 
         name, size, args, scale, shift = case["name"], case["size"], case["args"], case["scale"], case["shift"]
         axis_kind = "unit" if name == "beta" else "pos" if name in POS_KERNELS else "sym"
+        if not all(isinstance(v, (int, float)) and math.isfinite(v) for v in list(args) + [scale, shift]):
+            return outcome({}, {}, {}, spec_ok=True, model_ok=True, undetermined=True, features=["kernel:outside-domain"],
+                           note="a parameter is not a finite number")
         rep = ctx.driver.call("c18.axis", kind=axis_kind, size=size, scale=core.rat(scale), shift=core.rat(shift))
         axq = [unrat(v) for v in rep["x"]]
         if size == 1:
